@@ -306,6 +306,7 @@ theorem replicateLoop_ok : ∀ (rules : List NRule) (rep : PyDict String (List C
         (hr r List.mem_cons_self).1 (fun c hc => (initChains_ok r (hr r List.mem_cons_self) c hc).1) hexp
       refine ih _ _ _ (fun x hx => hr x (List.mem_cons_of_mem _ hx)) ?_ h
       intro p hp c hc
+      unfold repAdd at hp
       split at hp
       · rcases mem_pyset hp with hp | hp
         · exact hrep p hp c hc
